@@ -93,6 +93,15 @@ func (vc *VC) run() (err error) {
 			in[oe.to] = append(in[oe.to], inEdge{b, oe.st})
 		}
 	}
+	// every declared site must have matched an anchor in the code: a site that silently disappears
+	// (call removed, reordered so the ordinal no longer exists) is a failed obligation, not a pass
+	for _, ss := range vc.spec.Sites {
+		if vc.siteHits[ss] == 0 {
+			o := vc.oblige(vc.entry, fmt.Sprintf("site@%s(%s)#%d.exists", ss.AnchorKind, ss.Anchor, ss.N), "site-exists", "false",
+				"the anchor of this site assertion exists in the code: "+ss.Clause.Text, ss.Clause.Props)
+			o.Result = &SolveResult{Status: "sat", Output: "anchor not found in " + vc.key}
+		}
+	}
 	return nil
 }
 
@@ -119,12 +128,28 @@ func (vc *VC) assumeGlobals(st *State) {
 				env.pkg = sp.Pkg
 			}
 		}
+		// only where the declaring package is visible: the function's own package or one it imports
+		if env.pkg != vc.fn.Pkg.Pkg {
+			imp := false
+			for _, ip := range vc.fn.Pkg.Pkg.Imports() {
+				if ip == env.pkg {
+					imp = true
+				}
+			}
+			if !imp {
+				continue
+			}
+		}
 		t, err := env.compileBool(g.Clause.E)
 		if err != nil {
 			continue
 		}
 		vc.assume(st, t)
-		vc.assumedUse["global assumption: "+g.Clause.Text] = true
+		if g.Checked {
+			vc.assumedUse["ownership (checked by writer scan): "+g.Clause.Text] = true
+		} else {
+			vc.assumedUse["global assumption: "+g.Clause.Text] = true
+		}
 	}
 }
 
@@ -272,6 +297,16 @@ func (vc *VC) msMap(ms *modSet, mt *types.Map) {
 	d, v, ks, es := vc.mapComps(mt)
 	ms.comps[d] = "(Array Int (Array " + ks + " Bool))"
 	ms.comps[v] = "(Array Int (Array " + ks + " " + es + "))"
+}
+
+// contentsMods: the components holding the contents of a map or slice of type t.
+func (vc *VC) contentsMods(ms *modSet, t types.Type) {
+	switch u := t.Underlying().(type) {
+	case *types.Map:
+		vc.msMap(ms, u)
+	case *types.Slice:
+		vc.msElem(ms, u.Elem())
+	}
 }
 
 func (vc *VC) msElem(ms *modSet, et types.Type) {
@@ -446,11 +481,15 @@ func (vc *VC) callMods(c *ssa.CallCommon, ms *modSet) {
 // targetComps names the heap components an assigns target of callee may touch.
 func (vc *VC) targetComps(callee *ssa.Function, t Target) map[string]string {
 	ms := newModSet()
-	if t.Kind == "typefield" {
+	if t.Kind == "typefield" || t.Kind == "typefieldcontents" {
 		id := t.X.(*EIdent)
 		if obj, ok := callee.Pkg.Pkg.Scope().Lookup(id.Name).(*types.TypeName); ok {
 			if i, ok := fieldIndexByName(obj.Type(), t.Sel); ok {
-				vc.msField(ms, obj.Type(), i)
+				if t.Kind == "typefield" {
+					vc.msField(ms, obj.Type(), i)
+				} else {
+					vc.contentsMods(ms, obj.Type().Underlying().(*types.Struct).Field(i).Type())
+				}
 			}
 		}
 		return ms.comps
@@ -746,6 +785,19 @@ func (vc *VC) targetRefs(env *Env, t Target, comp string) ([]string, error) {
 		if ty != nil {
 			if c, ok := vc.fieldCompByName(ty, t.Sel); ok && c == comp {
 				return []string{"*"}, nil
+			}
+		}
+		return nil, nil
+	case "typefieldcontents":
+		id := t.X.(*EIdent)
+		ty, _ := env.lookupTypeSafe(id.Name)
+		if ty != nil {
+			if i, ok := fieldIndexByName(ty, t.Sel); ok {
+				ms := newModSet()
+				vc.contentsMods(ms, ty.Underlying().(*types.Struct).Field(i).Type())
+				if _, ok := ms.comps[comp]; ok {
+					return []string{"*"}, nil
+				}
 			}
 		}
 		return nil, nil
@@ -1048,8 +1100,16 @@ func (vc *VC) exec(st *State, ins ssa.Instruction) error {
 	case *ssa.IndexAddr:
 		vc.indexAddr(st, x)
 	case *ssa.Index:
-		// index of array value or string
-		vc.setFresh(st, x, "index")
+		// index of array value (a ref to a snapshot copy) or string
+		if arr, ok := x.X.Type().Underlying().(*types.Array); ok && !isStructLike(arr.Elem()) {
+			base, idx := vc.val(st, x.X), vc.val(st, x.Index)
+			vc.panicOb(st, "index", "array("+typeName(arr.Elem())+")", sx("and", sx("<=", "0", idx), sx("<", idx, fmt.Sprint(arr.Len()))))
+			comp, es := vc.elemComp(arr.Elem())
+			vc.setVal(x, sx("select", sx("select", vc.heapGet(st, comp, "(Array Int (Array Int "+es+"))"), base), idx))
+			vc.assumeType(st, vc.vals[x], x.Type())
+		} else {
+			vc.setFresh(st, x, "index")
+		}
 	case *ssa.Lookup:
 		vc.lookup(st, x)
 	case *ssa.MapUpdate:
